@@ -478,6 +478,27 @@ impl Check for C17 {
                 judge(a, st, index, "short", true);
             }
             st.sample(|| J::obj().with("family", J::s("exhaustive-17")).with("text", J::s("a\"e\n1.<")));
+            // character census: every character of Latin-1 / Latin Extended-A / -B and every Unicode character with a
+            // "blank", "line break", "invisible" or "special" reputation, alone and between tokens: only ' ', '\t', '\r'
+            // may lie between tokens, whatever a character class of the lexer generator thinks a blank is
+            // (non-ASCII decimal digits are left out: whether `\d` means them is not documented)
+            let mut census: Vec<char> = (1u32..0x250).filter_map(char::from_u32).collect();
+            for c in [0x0300u32, 0x0301, 0x034f, 0x061c, 0x1680, 0x180e, 0x2000, 0x2001, 0x2002, 0x2003, 0x2004, 0x2005, 0x2006, 0x2007, 0x2008, 0x2009, 0x200a, 0x200b, 0x200c, 0x200d, 0x200e, 0x200f, 0x2028, 0x2029, 0x202a, 0x202e, 0x202f, 0x205f, 0x2060, 0x2061, 0x2800, 0x3000, 0x3164, 0xe000, 0xfe0f, 0xfeff, 0xfffc, 0xfffd, 0xffff, 0x10000, 0x1d173, 0x1f600, 0xe0001, 0xe0020, 0x10ffff] {
+                if let Some(ch) = char::from_u32(c) {
+                    census.push(ch);
+                }
+            }
+            let mut n = 0u64;
+            for c in census {
+                if c.is_numeric() && !c.is_ascii() {
+                    continue;
+                }
+                for t in [format!("{}", c), format!("a{}b", c), format!("1{}2", c), format!("a {} b", c), format!("{}{}", c, c), format!("x\n{}y", c), format!("\"{}\"", c), format!("//{}\nz", c), format!("<{}=", c), format!(":{}:", c), format!("if{}x", c)] {
+                    judge(&t, st, index, "character-census", false);
+                    n += 1;
+                }
+            }
+            st.add("character_census_texts", n);
             return;
         }
         let mut idx = index - 1;
@@ -579,7 +600,7 @@ impl Check for C17 {
         Finish {
             level: "exploration",
             rule: format!(
-                "exhaustive: all strings of length<= {} over the 17-symbol alphabet {:?} and of length<= {} over a 40-symbol alphabet; keyword families; {} random texts (<=200 chars). \
+                "exhaustive: all strings of length<= {} over the 17-symbol alphabet {:?} and of length<= {} over a 40-symbol alphabet; a character census (every character below U+0250 and 45 blank / invisible / special Unicode characters, alone and between tokens in 11 contexts); keyword families; {} random texts (<=200 chars). \
                  A text is non-trivial when the tokenizer returns >= 2 tokens; exhaustive texts are distinct by construction, random ones by content hash.",
                 p.len17, ALPHA17, p.len40, st.get("random_texts")
             ),
